@@ -17,6 +17,7 @@ import Driver.OpExpand
 import Driver.OpJBody
 import Driver.OpGohcl
 import Driver.OpParseX
+import Driver.OpGenV
 open HclModel
 
 structure St where
@@ -87,6 +88,8 @@ def handle (st : St) (line : String) : St × String :=
   else if line.startsWith "EXPAND " then (st, expandLine (line.drop 7).toString)
   else if line.startsWith "JBODY " then (st, jbodyLine (line.drop 6).toString)
   else if line.startsWith "GOHCL " then (st, gohclLine (line.drop 6).toString)
+  else if line.startsWith "GENV " then (st, genvLine (line.drop 5).toString)
+  else if line.startsWith "PARSEG " then (st, parsegLine (line.drop 7).toString)
   else if line.startsWith "PARSEX " then (st, parsexLine (line.drop 7).toString)
   else if line.startsWith "EVAL " then
     match Sexp.parseMany (line.drop 5).toString with
